@@ -137,6 +137,15 @@ check("C12", "TLC model checking of Async.tla (all interleavings of the plan's a
       "the real event loop must be exactly the specification's Pending set (labels carry the key, occurrence and the data/text the evaluator saw), "
       "and the result must equal the result when nothing yields.", ASYNC_NOTE, "DESIGN.md 3.9, 4.3, 5/C12")
 
+check("C15", "TLC model checking of Async.tla on the plan of a whole validation run (OwnContext: every FC awaitable reads the text set by its own data "
+      "element, under all interleavings) + gate driver forcing validate_deep_anwendungshandbuch through TLC's schedules",
+      "For 3 (thorough 6) AHB scenarios with several free-text elements carrying different inputs and format constraints (same key in different elements, "
+      "several modal marks, packages bringing in format constraints, several segments / groups / a value pool / a forbidden segment) TLC explores every "
+      "completion order of all awaitables of the run; the real validation is driven through all of them (or a transition cover plus random "
+      "schedules). The gated format-constraint evaluators put the text they were handed into their label, so the real pending set equals the "
+      "specification's only if each evaluator saw its own element's input; the final result must equal the no-yield result and each element's "
+      "entry its stand-alone validation. The shared-context sensitivity configuration must violate OwnContext.", ASYNC_NOTE, "DESIGN.md 3.9, 4.3, 5/C15")
+
 NOT_BUILT = "check under construction in this session (specification module planned in DESIGN.md section 3); not claimed yet"
 
 
